@@ -449,7 +449,11 @@ def write_evidence(ctx, spec, status_ok):
     ev = dict(property_id=ctx.pid, tier=ctx.tier, seed=ctx.seed, level="proof", coverage=cov,
               assumptions=spec.get("assumptions", []), wall_s=round(time.time() - ctx.t0, 2),
               violations=len(ctx.violations))
-    path = os.path.join(ctx.root, "evidence", ctx.pid + ".json")
+    # VERIF_EVIDENCE_DIR: used only by tools/try_mutant.sh, so that a run against a deliberately broken tree
+    # can never leave its (failing) record in the committed evidence directory
+    edir = os.environ.get("VERIF_EVIDENCE_DIR") or os.path.join(ctx.root, "evidence")
+    os.makedirs(edir, exist_ok=True)
+    path = os.path.join(edir, ctx.pid + ".json")
     tmp = path + ".tmp"
     json.dump(ev, open(tmp, "w"), indent=1)
     os.replace(tmp, path)
